@@ -16,7 +16,7 @@ from .. import ir
 from ..paths import walk
 from .common import dict_build
 from .explcore import check_guard_and_counter, meanout_ok, meanout_arg, same, impute_args, MEANOUT
-from .sagecore import Sage, telescope, chain_end, getters
+from .sagecore import Sage, telescope, chain_end, getters, chain_start
 from .sagelib import is_call_to, FEATURE_NAMES
 
 META = {
@@ -57,6 +57,8 @@ def check(run):
     # ---- C0 --------------------------------------------------------------------------------------
     if sg.carried is not None:
         init = sg.carried[1]
+        # the loss of the empty coalition that the chain starts from is the value reported as marginal loss
+        chain_start(sg, "C0", init)
         mpts = [f for f in sg.fields.get("TRACKER", []) if f not in (sg.IT, sg.VT, sg.MLT, sg.MoLT)]
         run.need(len(mpts) == 1, f"marginal prediction tracker not identified: {mpts}")
         MPT = mpts[0]
@@ -124,7 +126,8 @@ def check(run):
     from .c06 import depends_on
     depends_on(run, "C10")
     depends_on(run, "C12", {"TYPESTATE", "NOMUT", "FORMULA", "ZERODIV"})
-    depends_on(run, "C06", {"MERGE", "KEYS", "COUNT"})
+    depends_on(run, "C06", {"MERGE", "KEYS", "COUNT", "VALUE"})
+    depends_on(run, "C15", {"DEFAULTS", "CTOR"}, only=lambda rule, inst: inst.startswith("IncrementalSage"))
     # ---- N ---------------------------------------------------------------------------------------
     sticky = [ev for ev, _ in walk(s.events) if isinstance(ev, ir.Store) and ev.field == "n_inner_samples"]
     run.check(not sticky, "N", "override", sg.where(sticky[0].line if sticky else s.fn.lineno), fq,
